@@ -225,6 +225,19 @@ def check_forms(triple, keys, w, tag):
     p = w.p(f"{tag}.json")
     write_json(idx, p)
     cmp("json", read_json(p))
+    # the same path written again, after a longer index had been stored there
+    from dvc_data.hashfile.meta import Meta as _Meta
+    from dvc_data.index import DataIndexEntry as _E
+
+    longer = DataIndex(build_entries(triple, keys))
+    for i in range(12):
+        longer[("zz-padding", str(i))] = _E(key=("zz-padding", str(i)), meta=_Meta(size=i))
+    write_json(longer, p)
+    write_json(DataIndex(build_entries(triple, keys)), p)
+    try:
+        cmp("json-overwrite", read_json(p))
+    except Exception as e:  # noqa: BLE001
+        viol.append((f"json-overwrite-read-raises-{type(e).__name__}", repr(e)[:200]))
     idx = DataIndex(build_entries(triple, keys))
     p = w.p(f"{tag}.db")
     write_db(idx, p)
@@ -474,8 +487,53 @@ def run_listings(case):
     return res
 
 
+def run_bulk(case):
+    """An index of 2500 entries (beyond any batching constant) through the three stored forms."""
+    from dvc_data.hashfile.hash_info import HashInfo
+    from dvc_data.hashfile.meta import Meta
+    from dvc_data.index import DataIndex, DataIndexEntry, read_db, read_json, write_db, write_json
+
+    res = {"n": 3, "trans": 6, "states": [digest_obj("bulk")], "outcomes": set(), "nontrivial": [digest_obj("bulk")],
+           "viol": [], "vac": {"bulk_forms": 3}}
+    n = 2500
+
+    def entries():
+        return {("d%02d" % (i % 40), "f%04d" % i): DataIndexEntry(key=("d%02d" % (i % 40), "f%04d" % i), meta=Meta(size=i),
+                                                                   hash_info=HashInfo("md5", ref.md5(b"%d" % i)))
+                for i in range(n)}
+
+    want = {k: proj_entry(e) for k, e in entries().items()}
+    with World() as w:
+        for form in ("json", "db", "sqlite"):
+            try:
+                if form == "json":
+                    write_json(DataIndex(entries()), w.p("b.json"))
+                    back = read_json(w.p("b.json"))
+                elif form == "db":
+                    write_db(DataIndex(entries()), w.p("b.db"))
+                    back = read_db(w.p("b.db"))
+                else:
+                    sq = DataIndex.open(w.p("b.sqlite"))
+                    for k, e in entries().items():
+                        sq[k] = e
+                    sq.commit()
+                    sq.close()
+                    back = DataIndex.open(w.p("b.sqlite"))
+                got = {k: proj_entry(back[k]) for k in back}
+            except Exception as e:  # noqa: BLE001
+                res["viol"].append((f"bulk-{form}-raises-{type(e).__name__}", repr(e)[:300], {"kind": "bulk"}))
+                continue
+            if got != want:
+                lost = len(set(want) - set(got))
+                res["viol"].append((f"bulk-{form}-round-trip-differs", f"{lost} of {n} entries lost, {len(set(got) - set(want))} extra",
+                                    {"kind": "bulk"}))
+    res["outcomes"] = [len(res["viol"])]
+    return res
+
+
 def run_case(case):
-    return {"dicts": run_dicts, "forms": run_forms, "seqs": run_seqs, "listings": run_listings}[case["part"]](case)
+    return {"dicts": run_dicts, "forms": run_forms, "seqs": run_seqs, "listings": run_listings,
+            "bulk": run_bulk}[case["part"]](case)
 
 
 def replay(case):
@@ -493,6 +551,8 @@ def replay(case):
             return run_seq(tuple(tuple(o) for o in case["seq"]), w, "r")[0]
     if k == "listing":
         return check_listing(case["hash_name"], case["metas"], case["store"])
+    if k == "bulk":
+        return [(s_, d) for s_, d, _c in run_bulk(case)["viol"]]
     return []
 
 
@@ -515,9 +575,10 @@ def run(ctx):
         "in a listing with metadata the metadata field named like the hash is owned by the hash",
         "SQLite rollback is not part of the claimed round trip (commit, close, reopen)",
     ]
-    ctx.require("falsy_non_none_fields", "nonascii_keys", "root_key_sqlite", "overwrites", "listings")
+    ctx.require("falsy_non_none_fields", "nonascii_keys", "root_key_sqlite", "overwrites", "listings", "bulk_forms")
     cs = [{"part": "dicts", "slice": [i, 16]} for i in range(16)]
     cs += [{"part": "forms", "tier": ctx.tier, "slice": [i, 16]} for i in range(16)]
     cs += [{"part": "seqs", "depth": depth, "first": i} for i in range(len(seq_ops()))]
     cs += [{"part": "listings", "tier": ctx.tier}]
+    cs += [{"part": "bulk"}]
     ctx.run_cases("run_case", cs, chunksize=1, det=2)
